@@ -32,6 +32,9 @@ type Rewards struct {
 	Period   int64
 	Dup      bool   // the consumer's reward-denom list names the fee denom twice (parameter validation allows it)
 	Cap      uint32 // validators-power-cap of the consumer (0 = none)
+	// Prov: the consumer also forwards two provider-originated denoms (ProviderRewardDenoms); only the
+	// consumer side is driven (fees in three denoms, blocks): one transfer per allowed denom must leave
+	Prov bool
 }
 
 func (c Rewards) Name() string { return "rewards" }
@@ -42,6 +45,9 @@ func (c Rewards) Params() map[string]any {
 	}
 	if c.Cap > 0 {
 		m["Cap"] = c.Cap
+	}
+	if c.Prov {
+		m["Prov"] = true
 	}
 	return m
 }
@@ -107,6 +113,9 @@ func (c Rewards) NewWorker(stats *engine.Stats) (engine.Worker, error) {
 		if c.Dup {
 			g.Params.RewardDenoms = []string{feeDenom, feeDenom}
 		}
+		if c.Prov {
+			g.Params.ProviderRewardDenoms = provDenoms
+		}
 	}
 	xw.AppGenesis = []func(map[string]json.RawMessage){func(g map[string]json.RawMessage) {
 		cdc := appConsumer.MakeTestEncodingConfig().Codec
@@ -114,8 +123,18 @@ func (c Rewards) NewWorker(stats *engine.Stats) (engine.Worker, error) {
 		rel := authtypes.NewBaseAccount(env.Relayer.Addr, env.Relayer.Priv.PubKey(), 0, 0)
 		acc := authtypes.NewBaseAccount(w.payer.Addr, w.payer.Priv.PubKey(), 1, 0)
 		g[authtypes.ModuleName] = cdc.MustMarshalJSON(authtypes.NewGenesisState(authtypes.DefaultParams(), []authtypes.GenesisAccount{rel, acc}))
-		g[banktypes.ModuleName] = cdc.MustMarshalJSON(banktypes.NewGenesisState(banktypes.DefaultParams(), []banktypes.Balance{{Address: w.payer.Addr.String(),
-			Coins: sdk.NewCoins(sdk.NewInt64Coin(feeDenom, 1_000_000_000), sdk.NewInt64Coin(otherDenom, 1_000_000_000))}}, nil, nil, nil))
+		coins := sdk.NewCoins(sdk.NewInt64Coin(feeDenom, 1_000_000_000), sdk.NewInt64Coin(otherDenom, 1_000_000_000))
+		if c.Prov {
+			// vouchers of two provider denoms (as if received over the transfer channel the consumer will
+			// open), with their denomination traces known to the transfer module
+			tg := transfertypes.DefaultGenesisState()
+			for _, d := range provDenoms {
+				coins = coins.Add(sdk.NewInt64Coin(provIBCDenom(d), 1_000_000_000))
+				tg.Denoms = append(tg.Denoms, transfertypes.NewDenom(d, transfertypes.NewHop("transfer", "channel-1")))
+			}
+			g[transfertypes.ModuleName] = cdc.MustMarshalJSON(tg)
+		}
+		g[banktypes.ModuleName] = cdc.MustMarshalJSON(banktypes.NewGenesisState(banktypes.DefaultParams(), []banktypes.Balance{{Address: w.payer.Addr.String(), Coins: coins}}, nil, nil, nil))
 	}}
 	w.w = xw
 	st := p.Root.Branch()
@@ -163,6 +182,9 @@ func (c Rewards) NewWorker(stats *engine.Stats) (engine.Worker, error) {
 	}
 	if err := xw.OpenTransfer(n.XNode, "0"); err != nil {
 		return nil, fmt.Errorf("open transfer: %w", err)
+	}
+	if c.Prov && n.L["0"].XCChan != "channel-1" {
+		return nil, fmt.Errorf("fixture: the consumer's reward channel is %s, the provider-denom vouchers were minted for channel-1", n.L["0"].XCChan)
 	}
 	w.ibcD = ccv.ParseDenomTrace(ccv.GetPrefixedDenom("transfer", n.L["0"].XPChan, feeDenom)).IBCDenom()
 	n.touchP()
@@ -217,8 +239,94 @@ func (w *rwWorker) cbal(ctx sdk.Context, module, denom string) math.Int {
 	return w.w.CA.CApp.BankKeeper.GetBalance(ctx, addr, denom).Amount
 }
 
+var provDenoms = []string{"pdenoma", "pdenomb"}
+
+// provIBCDenom is the voucher denom of a provider denom on the consumer (the reward-transmission
+// channel is the second channel the consumer opens: channel-1; checked in the fixture).
+func provIBCDenom(d string) string {
+	return ccv.ParseDenomTrace(ccv.GetPrefixedDenom("transfer", "channel-1", d)).IBCDenom()
+}
+
+// cblockProv judges a consumer block of the Prov variant: per allowed denom with a positive
+// provider share, exactly one transfer leaves when a transmission is due.
+func (w *rwWorker) cblockProv(x *rwNode) (engine.Node, []V) {
+	c := x.clone()
+	pre := x.C["0"]
+	k := w.w.CA.K
+	allowed := []string{feeDenom, provIBCDenom(provDenoms[0]), provIBCDenom(provDenoms[1])}
+	frac := math.LegacyMustNewDecFromStr(k.GetConsumerRedistributionFrac(pre.Ctx))
+	due := pre.Height()-k.GetLastTransmissionBlockHeight(pre.Ctx).Height >= k.GetBlocksPerDistributionTransmission(pre.Ctx)
+	want := map[string]math.Int{}
+	for _, d := range allowed {
+		fees := w.cbal(pre.Ctx, authtypes.FeeCollectorName, d)
+		want[d] = w.cbal(pre.Ctx, consumertypes.ConsumerToSendToProviderName, d).Add(fees.Sub(frac.MulInt(fees).TruncateInt()))
+	}
+	before := len(c.L["0"].XC2P.Packets)
+	r := w.w.CBlock(c.XNode, "0", 0, nil)
+	vs := haltViolation("consumer", r)
+	if r.Halt() != "" {
+		return nil, vs
+	}
+	sent := map[string]math.Int{}
+	for _, q := range c.L["0"].XC2P.Packets[before:] {
+		var d transfertypes.FungibleTokenPacketData
+		if err := transfertypes.ModuleCdc.UnmarshalJSON(q.P.Data, &d); err != nil {
+			continue
+		}
+		amt, _ := math.NewIntFromString(d.Amount)
+		den := ccv.ParseDenomTrace(d.Denom).IBCDenom()
+		if d.Denom == feeDenom {
+			den = feeDenom
+		}
+		if _, dup := sent[den]; dup {
+			vs = append(vs, vf("C16", "transfer-count", "two transfer packets for denom %s in one transmission", d.Denom))
+		}
+		sent[den] = amt
+	}
+	for _, d := range allowed {
+		got, ok := sent[d]
+		switch {
+		case due && want[d].IsPositive():
+			if !ok || !got.Equal(want[d]) {
+				vs = append(vs, vf("C16", "provider-share-not-sent", "transmission due: %s of %s should have left, sent %v (found=%v)", want[d], d, got, ok))
+			}
+			w.stats.Count("rewards-sent:multi-denom")
+		case ok:
+			vs = append(vs, vf("C16", "sent-before-period", "%s of %s sent although nothing was due", got, d))
+		}
+	}
+	if len(sent) >= 2 {
+		w.stats.Count("two-denoms-in-one-transmission")
+	}
+	return c, vs
+}
+
 func (w *rwWorker) build() {
 	p := w.p
+	if w.cfg.Prov {
+		for _, f := range []struct {
+			amt   int64
+			denom string
+		}{{10, feeDenom}, {4, provIBCDenom(provDenoms[0])}, {6, provIBCDenom(provDenoms[1])}} {
+			f := f
+			w.tab.Add(fmt.Sprintf("C.fee(%d%s)", f.amt, f.denom), func(n engine.Node) (engine.Node, []V) {
+				c := n.(*rwNode).clone()
+				c.touchC("0")
+				s := c.C["0"]
+				payer := w.payer.Addr
+				err, _ := s.Raw("fee-deduction", func(app env.ABCIApp, ctx sdk.Context) error {
+					return app.(*appConsumer.App).BankKeeper.SendCoinsFromAccountToModule(ctx, payer, authtypes.FeeCollectorName, sdk.NewCoins(sdk.NewInt64Coin(f.denom, f.amt)))
+				})
+				if err != nil {
+					return nil, nil
+				}
+				c.C["0"] = s
+				return c, nil
+			})
+		}
+		w.tab.Add("C.block", func(n engine.Node) (engine.Node, []V) { return w.cblockProv(n.(*rwNode)) })
+		return
+	}
 	for _, f := range []struct {
 		amt   int64
 		denom string
